@@ -480,7 +480,10 @@ class Body:
             else:
                 e = ('proj?', e)
             e = simplify(e)
-        return simplify(e)
+        e = simplify(e)
+        if e[0] == 'field' and len(e) == 4 and p['proj'] and isinstance(p['proj'][-1], dict) and 'field' in p['proj'][-1]:
+            e = e + (p['ty'],)        # type of the projected field (used by the interval evaluator)
+        return e
 
     def local_expr(self, l, depth=0, seen=None, at=None):
         if seen is None:
